@@ -287,7 +287,7 @@ class Builder:
 
 
 def gen_program(rng, cls):
-    """cls: plain | devices | vars | nested | mix | nomain | postloop | twoloops | looplocal_top | looplocal_if |
+    """cls: plain | devices | vars | nested | mix | nomain | postloop | twoloops | looplocal_top | looplocal_ok | looplocal_if |
             looplocal_for | setup_inner | break_nested | break_main | break_main_if | break_top | break_setup_for"""
     b = Builder(rng)
     items = []
@@ -459,6 +459,20 @@ def gen_program(rng, cls):
             src = rng.choice(gvars)
             body.insert(n_fixed, ("set", "t0", ("add", src, 1)))
             body.append(("show", mon, "t0"))
+        if cls == "looplocal_ok":
+            # locals of loop() assigned by top-level statements before anything reads them (inside vars_ok)
+            src = rng.choice(gvars)
+            l1, l2 = "loc_a", "locB"
+            head = [("set", l1, ("add", src, rng.randint(-1, 2)))]
+            if rng.random() < 0.6:
+                head.append(("set", l2, ("add", l1, rng.randint(1, 3))))
+            else:
+                head.append(("set", l2, ("const", rng.randint(0, 2))))
+            body[n_fixed:n_fixed] = head
+            tail = [("show", mon, l1), ("if", l2, [b.free_mark(mon, allow_core), ("set", src, ("add", l1, 1)), ("show", mon, l2)]),
+                    ("for", rng.randint(1, 2), [("show", mon, l2), ("set", l2, ("add", l2, 1))]),
+                    ("set", l1, ("add", l2, 1)), ("show", mon, l1)]
+            body += tail[:rng.randint(2, len(tail))]
         if cls == "looplocal_for":
             src = rng.choice(gvars)
             body.append(("for", 2, [("set", "u0", ("add", src, 1)), ("show", mon, "u0")]))
@@ -1128,7 +1142,7 @@ def load_findings(ctx):
 
 CLASSES = ["plain", "devices", "vars", "nested", "mix", "mix", "nomain", "postloop", "twoloops", "looplocal_top",
            "looplocal_if", "looplocal_for", "setup_inner", "break_nested", "break_main", "break_main_if", "break_top",
-           "break_setup_for", "devices", "mix"]
+           "break_setup_for", "devices", "mix", "looplocal_ok"]
 
 
 def run(ctx: C.Ctx):
